@@ -709,6 +709,9 @@ def regenerate(srcdir, gendir):
     src3, msgs3 = translate_arith.regenerate(srcdir)
     msgs += msgs3
     ch3 = write_if_changed(os.path.join(gendir, "Arith.lean"), src3)
+    src5, msgs5 = translate_arith.regenerate_integrals(srcdir)
+    msgs += msgs5
+    ch3 = write_if_changed(os.path.join(gendir, "Integrals.lean"), src5) or ch3
     if msgs:
         return False, "; ".join(msgs)
-    return True, f"translated 21 table units and {src3.count(chr(10) + 'def ')} arithmetic units from shape.py, plot.py, polygon.py, jordancurve.py, curve.py (changed: {ch1 or ch2 or ch3 or ch4})"
+    return True, f"translated 21 table units and {src3.count(chr(10) + 'def ') + src5.count(chr(10) + 'def ')} arithmetic units from shape.py, plot.py, polygon.py, jordancurve.py, curve.py (changed: {ch1 or ch2 or ch3 or ch4})"
